@@ -446,6 +446,63 @@ def rule_MP9(rep, prog, q):
                     "%s does not compute the lane's role from its (final) target on every path" % fname, sample={"fn": fname, "inherit_calls": len(inh)})
 
 
+def _param_deref_in_entry(prog, callee, n):
+    f = prog.fn(callee, required=False)
+    if f is None or not f.blocks:
+        return False
+    for i in f.blocks[0].insts:
+        if i.op in ("load", "store", "atomicrmw", "cmpxchg") and i.d.get("ptr") and root_ptr(f, i.d["ptr"]["base"]) == ("a", n):
+            return True
+    return False
+
+
+def rule_WL10(rep, prog, q):
+    rid = rep.rule("C03-WL10", "a workloop at the bottom of a hierarchy: the thread's current wlh is DISPATCH_WLH_ANON whenever the workloop is drained by an ordinary "
+                   "worker thread (always, without kernel workloops), so the value of _dispatch_get_wlh() is dereferenced only after it was compared with "
+                   "DISPATCH_WLH_ANON / converted by _dispatch_wlh_to_workloop", floor=3)
+    k = consts.get(["DISPATCH_WLH_ANON"], unit="queue")
+    ANON = k["DISPATCH_WLH_ANON"] & ((1 << 64) - 1)
+    n = 0
+    for fn in prog.all_functions():
+        for c in calls_named(fn, "_dispatch_get_wlh"):
+            me = ("i", c.id)
+            uses = []
+            for i in fn.all_insts():
+                if i.op in ("load", "store", "atomicrmw", "cmpxchg") and i.d.get("ptr") and root_ptr(fn, i.d["ptr"]["base"]) == me:
+                    uses.append(i)
+                elif i.op == "call" and i is not c and i.callee:
+                    for ai, o in enumerate(i.ops):
+                        if o[0] == "i" and root_ptr(fn, o) == me and _param_deref_in_entry(prog, i.callee, ai):
+                            uses.append(i)
+            n += 1
+            rep.saw(fn)
+            bad = None
+            for u in uses:
+                cx = paths.dom_ctx(fn, u)
+                ok = False
+                for cid, tv in cx.truth.items():
+                    t = fn.insts[cid]
+                    if t.op == "icmp" and t.d["pred"] in ("eq", "ne") and tv == (t.d["pred"] == "ne"):
+                        ops = [t.ops[0], t.ops[1]]
+                        vals = []
+                        for o in ops:
+                            if o[0] == "c":
+                                vals.append(o[1] & ((1 << 64) - 1))
+                            elif o[0] == "ce" and len(o) > 2 and isinstance(o[2], list) and o[2][0] == "c":
+                                vals.append(o[2][1] & ((1 << 64) - 1))
+                        if ANON in vals and any(o[0] == "i" and root_ptr(fn, o) == me for o in ops):
+                            ok = True
+                if not ok:
+                    bad = u
+                    break
+            rep.require(rid, bad is None, (bad or c).loc, fn.name, "wlh-dereferenced-unchecked:%s" % fn.name,
+                        "%s dereferences the thread's wlh (%s) without having excluded DISPATCH_WLH_ANON: when a queue that targets a workloop is drained "
+                        "with more than one item pending, the worker thread (whose wlh is ANON on this platform) faults and none of the remaining items run"
+                        % (fn.name, (bad.callee or bad.op) if bad else ""), sample={"fn": fn.name, "dereferencing_uses": len(uses)})
+    if n < 3:
+        rep.unknown(rid, "fewer than 3 readers of the thread's wlh found (%d)" % n)
+
+
 def run(rep, tier="quick", srcdir=None, only=None):
     prog, units = load(UNITS, tier, srcdir)
     rep.units = units
@@ -470,6 +527,8 @@ def run(rep, tier="quick", srcdir=None, only=None):
         rule_MP8(rep, prog, q)
     if want("C03-MP9"):
         rule_MP9(rep, prog, q)
+    if want("C03-WL10"):
+        rule_WL10(rep, prog, q)
 
 
 MANIFEST = {
